@@ -360,6 +360,32 @@ impl Check for C16 {
                 }
             });
         }
+        // large curves at fine tolerances: hundreds to thousands of segments per curve
+        {
+            let big: Vec<PathSpec> = vec![
+                PathSpec::new(vec![POp::M(0.5, 0.25), POp::Q(1000.0, 2000.0, 2000.0, 0.0)]),
+                PathSpec::new(vec![POp::M(0.0, 0.0), POp::C(1000.0, 2250.0, 2000.0, 2250.0, 3000.0, 10.0)]),
+                PathSpec::new(vec![POp::M(-3000.0, 100.0), POp::Q(0.0, 3900.0, 3000.0, 100.0), POp::Z, POp::C(-2000.0, -3000.0, 1500.0, 2000.0, 3500.0, -3000.0)]),
+                PathSpec::new(vec![POp::Q(300.0, 700.0, 650.0, 20.0), POp::L(10.0, 10.0)]),
+            ];
+            let btols: Vec<f32> = if q { vec![0.002, 0.05] } else { vec![0.001, 0.002, 0.01, 0.05, 1.0] };
+            run.bound("large curves at fine tolerances", format!("{} paths with curves 600-6000 units across x tolerances {:?}", big.len(), btols));
+            run.par(big.len() * btols.len(), |s, l| {
+                let p = &big[s / btols.len()];
+                let tol = btols[s % btols.len()];
+                l.states += 1;
+                l.transitions += 1;
+                l.traces += 1;
+                l.evals += 1;
+                match eval(p, tol, false) {
+                    Ok((h, _, _)) => {
+                        l.outcome(h);
+                        l.nontrivial += 1;
+                    }
+                    Err(v) => run.report(95_000 + s, v),
+                }
+            });
+        }
         if q {
             strings(run, "9-point alphabet depth 1, fine tolerances", &alphabet(&pts9, &ctrl), 1, &fine);
             strings(run, "4-point alphabet depth 2, fine tolerances", &alphabet(&pts4, &ctrl[..3]), 2, &fine);
